@@ -13,7 +13,7 @@ for d in sorted(os.listdir(ROOT)):
   r = res.get(d, {})
   meta = {
     'property': d[:3],
-    'round': {'b': 2, 'c': 3}.get(d[3], 1),
+    'round': {'b': 2, 'c': 3, 'd': 4}.get(d[3], 1),
     'files_changed': files,
     'what_it_breaks_and_what_it_needs_to_manifest': ' '.join(notes.split())[:1500],
     'written_by': 'fresh sub-agent given only the property text and a scratch worktree',
